@@ -41,6 +41,24 @@ static struct lh_table *tab;
 static json_object *obj;
 static int level; /* 0 raw, 1 json_object */
 
+/* fault overlay (as in vh_c07.c): fault_k >= 0: the fault_k-th allocation request of the next armed call fails; -1: count */
+static long fault_k = -2, fault_n, cur_script = -1;
+static int fault_hit;
+#define ARMED(call) \
+	do \
+	{ \
+		fault_hit = 0; \
+		if (fault_k >= -1) \
+			vh_alloc_arm(fault_k); \
+		call; \
+		if (fault_k >= -1) \
+		{ \
+			fault_n = vh_nalloc; \
+			fault_hit = fault_k >= 0 && vh_nalloc > fault_k; \
+			vh_alloc_disarm(); \
+			fault_k = -2; \
+		} \
+	} while (0)
 static void it_begin(const char *name) { ev_open_arr(name); }
 
 static void observe(const char *op, int k, int v, int ret, const int *ks, int nks, const int *vis, int nvis)
@@ -51,6 +69,8 @@ static void observe(const char *op, int k, int v, int ret, const int *ks, int nk
 	ev_int("k", k);
 	ev_int("v", v);
 	ev_int("ret", ret);
+	ev_int("fault", fault_hit);
+	fault_hit = 0;
 	for (int i = 0; i < nks; i++)
 		tmp[i] = ks[i];
 	ev_ints("ks", tmp, nks);
@@ -225,7 +245,10 @@ static void observe_visit(void)
 	ev_end();
 }
 
-static void fresh(int lvl, int hash)
+/* end of an execution: everything is released, nothing json-c allocated during it may remain */
+static long live0;
+static int started;
+static void finish_execution(void)
 {
 	if (tab)
 		lh_table_free(tab);
@@ -233,6 +256,20 @@ static void fresh(int lvl, int hash)
 		json_object_put(obj);
 	tab = 0;
 	obj = 0;
+	if (started)
+	{
+		ev_begin("op");
+		ev_str("op", "end");
+		ev_int("leak", (int)(vh_live - live0));
+		ev_end();
+	}
+	started = 0;
+}
+static void fresh(int lvl, int hash)
+{
+	finish_execution();
+	started = 1;
+	live0 = vh_live;
 	level = lvl;
 	if (lvl == 0)
 		tab = lh_table_new(3, NULL, model_hash, str_equal);
@@ -244,6 +281,8 @@ static void fresh(int lvl, int hash)
 	ev_begin("new");
 	ev_int("level", lvl);
 	ev_int("hash", hash);
+	if (cur_script >= 0)
+		ev_int("script", cur_script);
 	ev_end();
 }
 
@@ -253,7 +292,7 @@ static void do_add(int k, int v, int isnew, int constkey)
 	if (level == 0)
 	{
 		if (isnew)
-			ret = lh_table_insert(tab, uni[k], (void *)(intptr_t)v);
+			ARMED(ret = lh_table_insert(tab, uni[k], (void *)(intptr_t)v));
 		else
 		{
 			struct lh_entry *e = lh_table_lookup_entry(tab, uni[k]);
@@ -263,7 +302,7 @@ static void do_add(int k, int v, int isnew, int constkey)
 				ret = 0;
 			}
 			else
-				ret = lh_table_insert(tab, uni[k], (void *)(intptr_t)v);
+				ARMED(ret = lh_table_insert(tab, uni[k], (void *)(intptr_t)v));
 		}
 	}
 	else
@@ -271,9 +310,9 @@ static void do_add(int k, int v, int isnew, int constkey)
 		json_object *val = json_object_new_int(v);
 		unsigned opts = (isnew ? JSON_C_OBJECT_ADD_KEY_IS_NEW : 0) | (constkey ? JSON_C_OBJECT_ADD_CONSTANT_KEY : 0);
 		if (!opts && vh_below(2))
-			ret = json_object_object_add(obj, uni[k], val);
+			ARMED(ret = json_object_object_add(obj, uni[k], val));
 		else
-			ret = json_object_object_add_ex(obj, uni[k], val, opts);
+			ARMED(ret = json_object_object_add_ex(obj, uni[k], val, opts));
 		if (ret != 0)
 			json_object_put(val);
 	}
@@ -357,8 +396,45 @@ static void small_universe(void)
 		uni[i + 1] = names[i];
 }
 
-/* script: "a K V;n K V;d K;g K;f K K K" per line */
-static int replay(const char *path, long start, int lvl)
+/* script: "a K V;n K V;d K;g K;f K K K" per line
+ * fault_last: -2 plain; -1 count the allocation requests of the LAST operation; k >= 0 fail its k-th request */
+static void run_script(char *line, int lvl, long idx, long fault_last)
+{
+	int nops = 1, i = 0;
+	for (char *q = line; *q; q++)
+		if (*q == ';')
+			nops++;
+	fresh(lvl, (int)(idx & 1));
+	char *save = 0;
+	for (char *tok = strtok_r(line, ";\n", &save); tok; tok = strtok_r(0, ";\n", &save))
+	{
+		char op = tok[0];
+		int a[8], n = 0;
+		char *p = tok + 1;
+		while (*p && n < 8)
+		{
+			while (*p == ' ')
+				p++;
+			if (!*p)
+				break;
+			a[n++] = (int)strtol(p, &p, 10);
+		}
+		fault_k = (++i == nops) ? fault_last : -2;
+		switch (op)
+		{
+		case 'a': do_add(a[0], a[1], 0, 0); break;
+		case 'n': do_add(a[0], a[1], 1, 0); break;
+		case 'd': do_del(a[0]); break;
+		case 'g': do_get(a[0]); break;
+		case 'f': do_fdel(a, n); break;
+		default: fprintf(stderr, "bad op %s\n", tok); exit(2);
+		}
+		fault_k = -2;
+		if (lvl == 1 && fault_last == -2 && vh_below(4) == 0)
+			observe_visit();
+	}
+}
+static int replay(const char *path, long start, int lvl, int faults)
 {
 	FILE *f = fopen(path, "r");
 	if (!f)
@@ -371,33 +447,29 @@ static int replay(const char *path, long start, int lvl)
 	{
 		if (idx++ < start)
 			continue;
-		fresh(lvl, (int)(idx & 1));
-		char *save = 0;
-		for (char *tok = strtok_r(line, ";\n", &save); tok; tok = strtok_r(0, ";\n", &save))
+		if (!faults)
 		{
-			char op = tok[0];
-			int a[8], n = 0;
-			char *p = tok + 1;
-			while (*p && n < 8)
-			{
-				while (*p == ' ')
-					p++;
-				if (!*p)
-					break;
-				a[n++] = (int)strtol(p, &p, 10);
-			}
-			switch (op)
-			{
-			case 'a': do_add(a[0], a[1], 0, 0); break;
-			case 'n': do_add(a[0], a[1], 1, 0); break;
-			case 'd': do_del(a[0]); break;
-			case 'g': do_get(a[0]); break;
-			case 'f': do_fdel(a, n); break;
-			default: fprintf(stderr, "bad op %s\n", tok); return 2;
-			}
-			if (lvl == 1 && vh_below(4) == 0)
-				observe_visit();
+			run_script(line, lvl, idx, -2);
+			continue;
 		}
+		cur_script = idx - 1;
+		char *copy = strdup(line);
+		fault_n = 0;
+		{
+			/* the counting run is not recorded */
+			FILE *keep = ev_out, *nul = fopen("/dev/null", "w");
+			ev_out = nul;
+			run_script(copy, lvl, idx, -1);
+			ev_out = keep;
+			fclose(nul);
+		}
+		long n = fault_n;
+		for (long k = 0; k < n; k++)
+		{
+			strcpy(copy, line);
+			run_script(copy, lvl, idx, k);
+		}
+		free(copy);
 	}
 	free(line);
 	fclose(f);
@@ -462,6 +534,14 @@ static int drive(int start, int nexec, int nops)
 			if (r < (uint32_t)padd)
 			{
 				int v = (int)vh_below(1000);
+				/* now and then one of this call's first allocation requests fails (key copy, entry, table growth) */
+				{
+					/* ... more often where the next insertion makes the table grow (load factor 0.66 of 16, 32, 64 slots) */
+					int len = level == 0 ? lh_table_length(tab) : json_object_object_length(obj);
+					int near = (len >= 10 && len <= 12) || (len >= 21 && len <= 23) || (len >= 42 && len <= 44);
+					if (vh_below(near ? 2 : 12) == 0)
+						fault_k = (long)vh_below(near ? 5 : 3);
+				}
 				if (!present && vh_below(3) == 0)
 					do_add(k, v, 1, (int)vh_below(2));
 				else
@@ -494,12 +574,9 @@ int c06_main(int argc, char **argv)
 {
 	int r = 2;
 	if (argc >= 4 && !strcmp(argv[0], "replay"))
-		r = replay(argv[1], atol(argv[2]), atoi(argv[3]));
+		r = replay(argv[1], atol(argv[2]), atoi(argv[3]), argc >= 5 ? atoi(argv[4]) : 0);
 	else if (argc >= 4 && !strcmp(argv[0], "drive"))
 		r = drive(atoi(argv[1]), atoi(argv[2]), atoi(argv[3]));
-	if (tab)
-		lh_table_free(tab);
-	if (obj)
-		json_object_put(obj);
+	finish_execution();
 	return r;
 }
